@@ -34,6 +34,7 @@ type vector struct {
 	Ctr     map[string]string `json:"ctr"`
 	Phases  []string          `json:"phases"`
 	PortErr []string          `json:"porterr"`
+	Bad     []string          `json:"bad"`
 	Expect  [][]fileRef       `json:"expect"`
 }
 
@@ -41,6 +42,7 @@ type fakeDocker struct {
 	mu       sync.Mutex
 	ctr      map[string]string
 	mode     string
+	bad      map[string]bool // containers whose inspect answers 500 although the daemon is up
 	inspects map[string]int
 }
 
@@ -56,6 +58,9 @@ func (f *fakeDocker) ServeHTTP(w http.ResponseWriter, r *http.Request) {
 	}
 	st := f.ctr[id]
 	f.inspects[id]++
+	if mode == "up" && f.bad[id] {
+		mode = "err"
+	}
 	f.mu.Unlock()
 	switch mode {
 	case "down":
@@ -162,6 +167,10 @@ func main() {
 			fd.ctr[id] = st
 		}
 		fd.mode = v.Phases[0]
+		fd.bad = map[string]bool{}
+		for _, id := range v.Bad {
+			fd.bad[id] = true
+		}
 		fd.mu.Unlock()
 		_ = flag.Set("gc_dirs", stateDir)
 		_ = flag.Set("flannel_allocated_ip_dir", ipDir)
@@ -218,7 +227,7 @@ func main() {
 							check = "collected-live-or-blind"
 						}
 						findings = append(findings, finding{Check: check, Vector: v, Phase: pi,
-							Detail: fmt.Sprintf("%s file of container %s (%s, runtime %s) exists=%v, expected %v", c.dir, id, v.Ctr[id], mode, c.exists, want[c.dir+"/"+id])})
+							Detail: fmt.Sprintf("%s file of container %s (%s, runtime %s, inspect fails for %v) exists=%v, expected %v", c.dir, id, v.Ctr[id], mode, v.Bad, c.exists, want[c.dir+"/"+id])})
 					}
 				}
 				pmu.Lock()
